@@ -2839,6 +2839,83 @@ def c04_match_dispatch():
     write_if_changed("MatchDispatch.lean", "\n".join(L))
 
 EXTRACTORS += [c04_match_dispatch]
+# ---------------------------------------------------------------- C12: looks that do not consume (fuel-limit catalogue)
+def c12_fn_spans(text):
+    """(name, body) of every `fn` in a Rust source text (brace matching that skips strings, chars and comments)"""
+    out = []
+    for m in re.finditer(r"\bfn\s+([A-Za-z_][A-Za-z0-9_]*)\s*(?:<[^>]*>)?\s*\(", text):
+        i = text.find("{", m.end())
+        semi = text.find(";", m.end())
+        if i < 0 or (0 <= semi < i):
+            continue
+        depth, j, n = 0, i, len(text)
+        while j < n:
+            c = text[j]
+            if text.startswith("//", j):
+                j = text.find("\n", j)
+                if j < 0:
+                    j = n
+                continue
+            if c == '"':
+                j += 1
+                while j < n and text[j] != '"':
+                    j += 2 if text[j] == "\\" else 1
+            elif c == "'" and re.match(r"'(\\.|[^\\'])'", text[j:j + 4]):
+                j += len(re.match(r"'(\\.|[^\\'])'", text[j:j + 4]).group(0)) - 1
+            elif c == "{":
+                depth += 1
+            elif c == "}":
+                depth -= 1
+                if depth == 0:
+                    out.append((m.group(1), text[i:j + 1]))
+                    break
+            j += 1
+    return out
+
+
+def extract_c12_lookahead():
+    """C12/C04: where the grammar functions look ahead without consuming. `p.nth(<literal>)` is a bounded look;
+    `p.nth(<anything else>)` makes the number of looks grow with the input (the fuel-limit catalogue of
+    harness/src/c12.rs must drive each such function past the limit). Also counted: the `!p.eof()` / `p.eof()`
+    guards whose truthfulness while out of fuel losslessness rests on."""
+    files = ["file.rs", "expr.rs", "pattern.rs", "path.rs", "stmt.rs"]
+    unbounded, literal_max, eof_sites, nth_sites = [], 0, 0, 0
+    for f in files:
+        text = c20_read("crates/parser/src/" + f)
+        eof_sites += len(re.findall(r"\bp\.eof\(\)", text))
+        for name, body in c12_fn_spans(text):
+            for a in re.findall(r"\bp\.nth\(([^()]*)\)", body):
+                nth_sites += 1
+                a = a.strip()
+                if re.fullmatch(r"\d+", a):
+                    literal_max = max(literal_max, int(a))
+                elif name not in unbounded:
+                    unbounded.append(name)
+        # a look we cannot classify (nested call in the argument) must not go unnoticed
+        if re.search(r"\bp\.nth\([^()]*\(", text):
+            raise Exception(f"{f}: p.nth(..) with a call in its argument — classify it in extract_c12_lookahead")
+    if nth_sites == 0 or eof_sites == 0:
+        raise Exception("parser grammar files: no p.nth(..) / p.eof() site found — the anchors of extract_c12_lookahead are gone")
+    text = f"""/- GENERATED by tools/extract.py from crates/parser/src/{{file,expr,pattern,path,stmt}}.rs — do not edit. -/
+namespace Goml.Gen
+
+/-- grammar functions that call `p.nth(e)` with a computed `e`: their number of looks grows with the input -/
+def unboundedLookaheadFns : List String := {c04_lean_str_list(unbounded)}
+
+/-- the largest literal `n` in a `p.nth(n)` -/
+def maxLiteralLookahead : Nat := {literal_max}
+
+/-- number of `p.nth(..)` sites / of `p.eof()` guards in the grammar functions -/
+def nthSites : Nat := {nth_sites}
+def eofGuardSites : Nat := {eof_sites}
+
+end Goml.Gen
+"""
+    write_if_changed("Lookahead.lean", text)
+    return {"unbounded": unbounded, "literal_max": literal_max, "nth_sites": nth_sites, "eof_sites": eof_sites}
+
+
+EXTRACTORS += [extract_c12_lookahead]
 
 if __name__ == "__main__":
     main()
